@@ -12,6 +12,8 @@ import Mathlib.Algebra.Order.Floor.Ring
 import Mathlib.Algebra.Order.Archimedean.Basic
 import Mathlib.Algebra.Order.Ring.Rat
 import Mathlib.Data.Rat.Floor
+import Mathlib.Data.Rat.Cast.Lemmas
+import Mathlib.Data.Rat.Cast.Order
 
 /-!
 # C18 — laser profiles and spectra (table-independent theorems)
@@ -1234,6 +1236,8 @@ theorem history_eq_fresh (E : Ext α) (hc : 0 < E.c) (t : Cls) (hcov : coveredB 
 
 end Fresh
 
+
+
 section Abstract
 
 /-! ## the same statement at the level of the generic invalidation theory (`Model/Invalidation.lean`)
@@ -1345,6 +1349,411 @@ theorem uncovered_setter_goes_stale (E : Ext α) (t : Cls) (s : Setter) (hfs : f
   exact hv (h1.symm.trans (hcl f hf))
 
 end Witness
+
+section Constructible
+variable {α : Type} [Field α] [LinearOrder α] [IsStrictOrderedRing α]
+
+theorem lit_pos (m e : Nat) (hm : 0 < m) : (0 : α) < lit m e := by
+  unfold lit
+  rw [← Rat.cast_ofScientific (K := α), Rat.cast_pos]
+  show (0 : ℚ) < Rat.ofScientific m true e
+  rw [Rat.ofScientific_true_def, Rat.mkRat_eq_div]
+  have : (0 : ℚ) < (m : ℚ) := by exact_mod_cast hm
+  positivity
+
+
+
+/-! ### the fresh construction from the reported parameters is always accepted -/
+
+def isRangeGuard : Guard → Bool
+  | .rangeMin | .rangeMax => true
+  | _ => false
+def isCheckRange : CtorOp → Bool
+  | .checkRange _ _ => true
+  | _ => false
+def usesRange (t : Cls) : Bool := t.ctor.any isCheckRange || t.setters.any fun s => isRangeGuard s.guard
+
+/-- the wavelength range is handled by the two setters `min_wavelength` / `max_wavelength` (which store the raw value
+in `_min_wavelength` / `_max_wavelength`) and by `_check_wavelength_validity(min_wavelength, max_wavelength)` in the
+constructor, and by nothing else -/
+def rangeShapeB (t : Cls) : Bool :=
+  (t.setters.all fun s =>
+     (s.guard != .rangeMin || (s.prop == "min_wavelength" && s.writes == [("_min_wavelength", Rhs.value)])) &&
+     (s.guard != .rangeMax || (s.prop == "max_wavelength" && s.writes == [("_max_wavelength", Rhs.value)])) &&
+     (s.prop != "min_wavelength" || !usesRange t || s.guard == .rangeMin) &&
+     (s.prop != "max_wavelength" || !usesRange t || s.guard == .rangeMax)) &&
+  (!usesRange t ||
+     ((findSetter t "min_wavelength").isSome && (findSetter t "max_wavelength").isSome &&
+      t.ctor.contains (CtorOp.checkRange "min_wavelength" "max_wavelength"))) &&
+  (t.ctor.all fun op => match op with
+    | .checkRange a b => a == "min_wavelength" && b == "max_wavelength"
+    | _ => true)
+
+/-- every positivity-guarded setter is run by the constructor with the argument of its own name -/
+def ctorSetsPositiveB (t : Cls) : Bool :=
+  t.setters.all fun s => s.guard != .positive || t.ctor.contains (CtorOp.set s.prop s.prop)
+
+/-- abstract run of the constructor tracking which fields are known to be positive: at every rebuild all fields the
+inner constructor insists on must already be positive (literal initialisation or a guarded setter) -/
+def ctorPosCheck (t : Cls) : List CtorOp → List String → Bool
+  | [], _ => true
+  | .init f m _ :: rest, known => ctorPosCheck t rest (if 0 < m then f :: known else known.filter (· != f))
+  | .initArg f _ :: rest, known => ctorPosCheck t rest (known.filter (· != f))
+  | .set p a :: rest, known =>
+    match findSetter t p with
+    | some s =>
+      (s.guard == .none || s.guard == .positive) && p == a &&
+        (!hasRebuild s || t.rebuildPositive.all fun f => decide (f ∈ s.writes.map (·.1) ++ known)) &&
+        ctorPosCheck t rest (s.writes.map (·.1) ++ known)
+    | none => false
+  | .checkRange _ _ :: rest, known => ctorPosCheck t rest known
+  | .other _ :: rest, known => ctorPosCheck t rest known
+  | .unknown _ :: _, _ => false
+
+/-- what the guards demand of a parameter valuation -/
+def ParamsOk (t : Cls) (params : String → α) : Prop :=
+  (∀ s ∈ t.setters, s.guard = .positive → 0 < params s.prop) ∧
+  (usesRange t = true → rangeOk (params "min_wavelength") (params "max_wavelength") = true)
+
+theorem ctor_ok_step (E : Ext α) (t : Cls) (args : String → α) (ops : List CtorOp) (o : Obj α)
+    (hrun : (runCtorFrom E t args o ops).2 = .ok) (op : CtorOp) (hop : op ∈ ops) :
+    ∃ o', (ctorStep E t args o' op).2 = .ok := by
+  induction ops generalizing o with
+  | nil => simp at hop
+  | cons op' rest ih =>
+    obtain ⟨hstep, heq⟩ := runCtorFrom_cons_ok E t args o op' rest hrun
+    rcases List.mem_cons.mp hop with h | h
+    · subst h; exact ⟨o, hstep⟩
+    · rw [heq] at hrun; exact ih _ hrun h
+
+theorem guard_positive_ok (fs : String → α) (v : α) : guardOk Guard.positive fs v = true ↔ 0 < v := by
+  simp [guardOk]
+
+/-- an accepted construction shows that the arguments satisfy the guards -/
+theorem ctor_params_ok (E : Ext α) (t : Cls) (hat : atomicB t = true) (hu : propsUniqueB t = true)
+    (hcp : ctorSetsPositiveB t = true) (hrs : rangeShapeB t = true) (args : String → α)
+    (hrun : (runCtor E t args).2 = .ok) : ParamsOk t args := by
+  constructor
+  · intro s hs hg
+    have h1 := List.all_eq_true.mp hcp s hs
+    simp only [hg, bne_self_eq_false, Bool.false_or, List.contains_iff_mem] at h1
+    obtain ⟨o', hstep⟩ := ctor_ok_step E t args t.ctor blank hrun _ h1
+    have hfs := findSetter_of_mem t hu s hs
+    have has := List.all_eq_true.mp hat s hs
+    have hgf : s.guardFirst = true := by
+      simp only [atomicSetter, Bool.and_eq_true] at has; exact has.1
+    have hok : (setWith E t s o' (args s.prop)).2 = .ok := by
+      simpa [ctorStep, setProp, hfs] using hstep
+    have := (setWith_ok_fields E t s o' (args s.prop) hgf hok).1
+    rw [hg] at this
+    exact (guard_positive_ok _ _).mp this
+  · intro hur
+    simp only [rangeShapeB, Bool.and_eq_true, hur, Bool.not_true, Bool.false_or, List.contains_iff_mem] at hrs
+    obtain ⟨⟨_, ⟨_, hmem⟩⟩, _⟩ := hrs
+    obtain ⟨o', hstep⟩ := ctor_ok_step E t args t.ctor blank hrun _ hmem
+    simp only [ctorStep] at hstep
+    by_contra hne
+    simp [hne] at hstep
+
+theorem range_setters (t : Cls) (hrs : rangeShapeB t = true) (hur : usesRange t = true) :
+    (∃ s ∈ t.setters, s.prop = "min_wavelength" ∧ s.guard = .rangeMin ∧ s.writes = [("_min_wavelength", Rhs.value)]) ∧
+    (∃ s ∈ t.setters, s.prop = "max_wavelength" ∧ s.guard = .rangeMax ∧ s.writes = [("_max_wavelength", Rhs.value)]) := by
+  simp only [rangeShapeB, Bool.and_eq_true, hur, Bool.not_true, Bool.false_or, List.all_eq_true, Bool.or_eq_true,
+    bne_iff_ne, ne_eq, beq_iff_eq, Bool.not_eq_true', Bool.false_eq_true, false_or] at hrs
+  obtain ⟨⟨hall, ⟨⟨hmin, hmax⟩, _⟩⟩, _⟩ := hrs
+  constructor
+  · obtain ⟨s, hs⟩ := Option.isSome_iff_exists.mp hmin
+    obtain ⟨hmem, hp⟩ := findSetter_mem t _ s hs
+    obtain ⟨⟨⟨h1, _⟩, h3⟩, _⟩ := hall s hmem
+    have hg : s.guard = .rangeMin := by
+      rcases h3 with (h | h) | h
+      · exact absurd hp h
+      · exact absurd h (by simp)
+      · exact h
+    rcases h1 with h | h
+    · exact absurd hg h
+    · exact ⟨s, hmem, hp, hg, h.2⟩
+  · obtain ⟨s, hs⟩ := Option.isSome_iff_exists.mp hmax
+    obtain ⟨hmem, hp⟩ := findSetter_mem t _ s hs
+    obtain ⟨⟨⟨_, h2⟩, _⟩, h4⟩ := hall s hmem
+    have hg : s.guard = .rangeMax := by
+      rcases h4 with (h | h) | h
+      · exact absurd hp h
+      · exact absurd h (by simp)
+      · exact h
+    rcases h2 with h | h
+    · exact absurd hg h
+    · exact ⟨s, hmem, hp, hg, h.2⟩
+
+
+
+/-- one assignment keeps "the fields are what the setters compute from parameters that satisfy the guards" -/
+theorem setProp_agrees_ok (E : Ext α) (hc : 0 < E.c) (t : Cls) (hcov : coveredB t = true) (hat : atomicB t = true)
+    (hu : propsUniqueB t = true) (hsw : singleWriterB t = true) (hrs : rangeShapeB t = true)
+    (o : Obj α) (p : String) (v : α) (hcl : Clean t o) (hp : Pos t o) (params : String → α)
+    (ha : Agrees E t params o) (hpo : ParamsOk t params) :
+    ∃ params', Agrees E t params' (setProp E t o p v).1 ∧ ParamsOk t params' := by
+  unfold setProp
+  split
+  · exact ⟨params, ha, hpo⟩
+  · rename_i s hs
+    obtain ⟨hmem, _⟩ := findSetter_mem t p s hs
+    have h1 := List.all_eq_true.mp hcov s hmem
+    have h2 := List.all_eq_true.mp hat s hmem
+    have hgf : s.guardFirst = true := by
+      simp only [atomicSetter, Bool.and_eq_true] at h2; exact h2.1
+    rcases (setWith_inv E hc t s h1 h2 o v hcl hp).2.2 with hok | hun
+    · refine ⟨upd params s.prop v, ?_, ?_⟩
+      · have := setWith_agrees E t hu hsw s hmem hgf o v hok _ params ((agrees_iff E t params o).mp ha)
+        intro s' hs' w hw
+        exact this s' hs' (by simp [List.mem_map]; exact Or.inr ⟨s', hs', rfl⟩) w hw
+      · have hg := (setWith_ok_fields E t s o v hgf hok).1
+        constructor
+        · intro s' hs' hg'
+          by_cases hpp : s'.prop = s.prop
+          · have := propsUnique_spec hu hs' hmem hpp
+            subst this
+            rw [hg'] at hg
+            simp only [upd, if_true]
+            exact (guard_positive_ok _ _).mp hg
+          · simp only [upd, hpp, if_false]
+            exact hpo.1 s' hs' hg'
+        · intro hur
+          obtain ⟨⟨smin, hsmin, pmin, gmin, wmin⟩, ⟨smax, hsmax, pmax, gmax, wmax⟩⟩ := range_setters t hrs hur
+          have fmin : o.fields "_min_wavelength" = params "min_wavelength" := by
+            have := ha smin hsmin ("_min_wavelength", Rhs.value) (by rw [wmin]; simp)
+            simpa [evalRhs, pmin] using this
+          have fmax : o.fields "_max_wavelength" = params "max_wavelength" := by
+            have := ha smax hsmax ("_max_wavelength", Rhs.value) (by rw [wmax]; simp)
+            simpa [evalRhs, pmax] using this
+          have hold := hpo.2 hur
+          by_cases hmin : s.prop = "min_wavelength"
+          · have : s = smin := propsUnique_spec hu hmem hsmin (hmin.trans pmin.symm)
+            subst this
+            rw [gmin] at hg
+            simp only [guardOk, fmax] at hg
+            simpa [upd, hmin] using hg
+          · by_cases hmax : s.prop = "max_wavelength"
+            · have : s = smax := propsUnique_spec hu hmem hsmax (hmax.trans pmax.symm)
+              subst this
+              rw [gmax] at hg
+              simp only [guardOk, fmin] at hg
+              simpa [upd, hmax] using hg
+            · have e1 : upd params s.prop v "min_wavelength" = params "min_wavelength" := by
+                simp [upd, Ne.symm hmin]
+              have e2 : upd params s.prop v "max_wavelength" = params "max_wavelength" := by
+                simp [upd, Ne.symm hmax]
+              rw [e1, e2]; exact hold
+    · rw [hun]; exact ⟨params, ha, hpo⟩
+
+theorem history_agrees_ok (E : Ext α) (hc : 0 < E.c) (t : Cls) (hcov : coveredB t = true) (hat : atomicB t = true)
+    (hu : propsUniqueB t = true) (hsw : singleWriterB t = true) (hrs : rangeShapeB t = true)
+    (ops : List (String × α)) (o : Obj α) (hcl : Clean t o) (hp : Pos t o) (params : String → α)
+    (ha : Agrees E t params o) (hpo : ParamsOk t params) :
+    ∃ params', Agrees E t params' (runOps E t o ops) ∧ ParamsOk t params' := by
+  induction ops generalizing o params with
+  | nil => exact ⟨params, ha, hpo⟩
+  | cons op ops ih =>
+    obtain ⟨p, v⟩ := op
+    unfold runOps
+    obtain ⟨params', ha', hpo'⟩ := setProp_agrees_ok E hc t hcov hat hu hsw hrs o p v hcl hp params ha hpo
+    have := setProp_inv E hc t hcov hat o p v hcl hp
+    exact ih _ this.1 this.2 params' ha' hpo'
+
+def KnownPos (t : Cls) (known : List String) (o : Obj α) : Prop :=
+  ∀ f ∈ known, f ∈ t.rebuildPositive → 0 < o.fields f
+
+theorem applyWrites_pos' (E : Ext α) (P : String → Prop) (ws : List (String × Rhs)) (fs : String → α) (v : α)
+    (hw : ∀ w ∈ ws, P w.1 → 0 < evalRhs E w.2 v) (f : String) (hP : P f)
+    (hf : 0 < fs f ∨ ∃ w ∈ ws, w.1 = f) : 0 < applyWrites E ws fs v f := by
+  unfold applyWrites
+  induction ws generalizing fs with
+  | nil =>
+    rcases hf with h | ⟨w, hw', _⟩
+    · exact h
+    · simp at hw'
+  | cons w ws ih =>
+    simp only [List.foldl_cons]
+    apply ih
+    · intro w' hw'; exact hw w' (by simp [hw'])
+    · by_cases hin : ∃ w' ∈ ws, w'.1 = f
+      · exact Or.inr hin
+      · left
+        simp only [write]
+        split
+        · rename_i heq; rw [heq] at hP; exact hw w (by simp) hP
+        · rename_i hne
+          rcases hf with h | ⟨w', hw', hw'f⟩
+          · exact h
+          · rcases List.mem_cons.mp hw' with h | h
+            · subst h; exact absurd hw'f.symm hne
+            · exact absurd ⟨w', h, hw'f⟩ hin
+
+/-- a valuation that satisfies the guards is accepted by the constructor -/
+theorem ctor_succeeds (E : Ext α) (hc : 0 < E.c) (t : Cls) (hat : atomicB t = true) (hrs : rangeShapeB t = true)
+    (args : String → α) (hpo : ParamsOk t args) (ops : List CtorOp) (hsub : ∀ op ∈ ops, op ∈ t.ctor)
+    (known : List String) (o : Obj α) (hchk : ctorPosCheck t ops known = true) (hk : KnownPos t known o) :
+    (runCtorFrom E t args o ops).2 = .ok := by
+  induction ops generalizing known o with
+  | nil => rfl
+  | cons op rest ih =>
+    have hsub' : ∀ op' ∈ rest, op' ∈ t.ctor := fun op' h => hsub op' (by simp [h])
+    cases op with
+    | init f m e =>
+      simp only [ctorPosCheck] at hchk
+      simp only [runCtorFrom, ctorStep]
+      apply ih hsub' _ _ hchk
+      intro g hg hgp
+      simp only [write]
+      by_cases hgf : g = f
+      · subst hgf
+        simp only [if_true]
+        by_cases hm : 0 < m
+        · exact lit_pos m e hm
+        · simp [hm] at hg
+      · simp only [hgf, if_false]
+        by_cases hm : 0 < m
+        · simp only [hm, if_true] at hg
+          rcases List.mem_cons.mp hg with h | h
+          · exact absurd h hgf
+          · exact hk g h hgp
+        · simp only [hm, if_false, List.mem_filter] at hg
+          exact hk g hg.1 hgp
+    | initArg f a =>
+      simp only [ctorPosCheck] at hchk
+      simp only [runCtorFrom, ctorStep]
+      apply ih hsub' _ _ hchk
+      intro g hg hgp
+      simp only [List.mem_filter, bne_iff_ne, ne_eq] at hg
+      simp only [write, hg.2, if_false]
+      exact hk g hg.1 hgp
+    | set p a =>
+      simp only [ctorPosCheck] at hchk
+      cases hfs : findSetter t p with
+      | none => simp [hfs] at hchk
+      | some s =>
+        simp only [hfs, Bool.and_eq_true, Bool.or_eq_true, beq_iff_eq, Bool.not_eq_true', List.all_eq_true,
+          decide_eq_true_eq] at hchk
+        obtain ⟨⟨⟨hguard, hpa⟩, hreb⟩, hrest⟩ := hchk
+        subst hpa
+        obtain ⟨hs, hsp⟩ := findSetter_mem t p s hfs
+        have has := List.all_eq_true.mp hat s hs
+        have has' := has
+        simp only [atomicSetter, Bool.and_eq_true, List.all_eq_true, Bool.or_eq_true, Bool.not_eq_true',
+          decide_eq_false_iff_not, beq_iff_eq] at has'
+        obtain ⟨hgf, hws⟩ := has'
+        -- the guard passes
+        have hg : guardOk s.guard o.fields (args p) = true := by
+          rcases hguard with h | h
+          · rw [h]; rfl
+          · rw [h, guard_positive_ok]; rw [← hsp]; exact hpo.1 s hs h
+        -- positivity of what is written
+        have hwpos : ∀ w ∈ s.writes, w.1 ∈ t.rebuildPositive → 0 < evalRhs E w.2 (args p) := by
+          intro w hw hwp
+          rcases hws w hw with hn | ⟨hgp, hrv⟩
+          · exact absurd hwp hn
+          · have hv : 0 < args p := by rw [hgp] at hg; exact (guard_positive_ok _ _).mp hg
+            exact evalRhs_pos E hc w.2 (args p) hv hrv
+        have hk1 : KnownPos t (s.writes.map (·.1) ++ known)
+            ({ o with fields := applyWrites E s.writes o.fields (args p) } : Obj α) := by
+          intro g hg' hgp
+          apply applyWrites_pos' E (fun f => f ∈ t.rebuildPositive) s.writes o.fields (args p) hwpos g hgp
+          rcases List.mem_append.mp hg' with h | h
+          · right
+            obtain ⟨w, hw, hwg⟩ := List.mem_map.mp h
+            exact ⟨w, hw, hwg⟩
+          · by_cases hin : ∃ w ∈ s.writes, w.1 = g
+            · exact Or.inr hin
+            · exact Or.inl (hk g h hgp)
+        have hstepobj : ctorStep E t args o (.set p p)
+            = runRefresh t ({ o with fields := applyWrites E s.writes o.fields (args p) } : Obj α) s.refresh := by
+          simp [ctorStep, setProp, hfs, setWith, hgf, hg]
+        have hrok : (runRefresh t ({ o with fields := applyWrites E s.writes o.fields (args p) } : Obj α) s.refresh).2 = .ok := by
+          by_cases hrb : hasRebuild s = true
+          · apply runRefresh_pos_ok
+            intro f hf
+            rcases hreb with h | h
+            · rw [hrb] at h; cases h
+            · exact hk1 f (h f hf) hf
+          · have : s.refresh.any isRebuild = false := by simpa [hasRebuild] using hrb
+            exact (runRefresh_no_rebuild_snap t s.refresh _ this).2
+        have hstep2 : (ctorStep E t args o (.set p p)).2 = .ok := by rw [hstepobj]; exact hrok
+        have : runCtorFrom E t args o (.set p p :: rest)
+            = runCtorFrom E t args (ctorStep E t args o (.set p p)).1 rest := by
+          rcases hst : ctorStep E t args o (.set p p) with ⟨o', r⟩
+          rw [hst] at hstep2
+          simp only at hstep2
+          subst hstep2
+          simp [runCtorFrom, hst]
+        rw [this]
+        apply ih hsub' _ _ hrest
+        rw [hstepobj]
+        intro g hg' hgp
+        rw [runRefresh_fields]
+        exact hk1 g hg' hgp
+    | checkRange a b =>
+      simp only [ctorPosCheck] at hchk
+      have hmem := hsub (.checkRange a b) (by simp)
+      have hur : usesRange t = true := by
+        simp only [usesRange, Bool.or_eq_true, List.any_eq_true]
+        exact Or.inl ⟨_, hmem, rfl⟩
+      have hnames : a = "min_wavelength" ∧ b = "max_wavelength" := by
+        simp only [rangeShapeB, Bool.and_eq_true, List.all_eq_true] at hrs
+        have := hrs.2 _ hmem
+        simpa using this
+      have hr := hpo.2 hur
+      simp only [runCtorFrom, ctorStep, hnames.1, hnames.2, hr, if_true]
+      exact ih hsub' _ _ hchk hk
+    | other txt =>
+      simp only [ctorPosCheck] at hchk
+      simp only [runCtorFrom, ctorStep]
+      exact ih hsub' _ _ hchk hk
+    | unknown txt => simp [ctorPosCheck] at hchk
+
+/-- **fresh_constructible**: whatever history an accepted object went through, the parameters it reports are
+accepted by the constructor -/
+theorem fresh_constructible (E : Ext α) (hc : 0 < E.c) (t : Cls) (hcov : coveredB t = true) (hat : atomicB t = true)
+    (hu : propsUniqueB t = true) (hsw : singleWriterB t = true) (hctor : ctorOkB t = true)
+    (hpw : positiveWrittenB t = true) (hgo : gettersOwnB t = true) (hrs : rangeShapeB t = true)
+    (hcp : ctorSetsPositiveB t = true) (hpc : ctorPosCheck t t.ctor [] = true)
+    (args : String → α) (ops : List (String × α)) (hrun : (runCtor E t args).2 = .ok) :
+    (runCtor E t (reported t (runOps E t (runCtor E t args).1 ops))).2 = .ok := by
+  obtain ⟨hcl0, hp0, ha0⟩ := ctor_establishes E hc t hcov hat hu hsw hctor hpw args hrun
+  have hpo0 := ctor_params_ok E t hat hu hcp hrs args hrun
+  obtain ⟨params, ha, hpo⟩ := history_agrees_ok E hc t hcov hat hu hsw hrs ops _ hcl0 hp0 args ha0 hpo0
+  have hrep := reported_eq E t hgo params _ ha
+  have hpo' : ParamsOk t (reported t (runOps E t (runCtor E t args).1 ops)) := by
+    constructor
+    · intro s hs hg; rw [hrep s hs]; exact hpo.1 s hs hg
+    · intro hur
+      obtain ⟨⟨smin, hsmin, pmin, _, _⟩, ⟨smax, hsmax, pmax, _, _⟩⟩ := range_setters t hrs hur
+      have e1 := hrep smin hsmin
+      have e2 := hrep smax hsmax
+      rw [pmin] at e1; rw [pmax] at e2
+      rw [e1, e2]; exact hpo.2 hur
+  exact ctor_succeeds E hc t hat hrs _ hpo' t.ctor (fun _ h => h) [] blank hpc
+    (fun f hf _ => absurd hf (by simp))
+
+/-- the decidable conditions on a class table under which the history clause holds -/
+def tableOkB (t : Cls) : Bool :=
+  coveredB t && atomicB t && propsUniqueB t && singleWriterB t && ctorOkB t && positiveWrittenB t && gettersOwnB t &&
+    observedOkB t && rangeShapeB t && ctorSetsPositiveB t && ctorPosCheck t t.ctor []
+
+/-- **history_eq_fresh_total** — the history clause at full strength for any class table passing the decidable
+checks: construct with any accepted arguments, apply any sequence of assignments (accepted or rejected, any values);
+the object constructed from the parameters the first one reports *is accepted* and every observation of the two
+coincides. -/
+theorem history_eq_fresh_total (E : Ext α) (hc : 0 < E.c) (t : Cls) (hok : tableOkB t = true)
+    (args : String → α) (ops : List (String × α)) (hrun : (runCtor E t args).2 = .ok) :
+    (runCtor E t (reported t (runOps E t (runCtor E t args).1 ops))).2 = .ok ∧
+    ObsEq E t (runOps E t (runCtor E t args).1 ops)
+      (runCtor E t (reported t (runOps E t (runCtor E t args).1 ops))).1 := by
+  simp only [tableOkB, Bool.and_eq_true] at hok
+  obtain ⟨⟨⟨⟨⟨⟨⟨⟨⟨⟨hcov, hat⟩, hu⟩, hsw⟩, hctor⟩, hpw⟩, hgo⟩, hobs⟩, hrs⟩, hcp⟩, hpc⟩ := hok
+  have hfresh := fresh_constructible E hc t hcov hat hu hsw hctor hpw hgo hrs hcp hpc args ops hrun
+  exact ⟨hfresh, history_eq_fresh E hc t hcov hat hu hsw hctor hpw hgo hobs args ops hrun hfresh⟩
+
+end Constructible
 
 /-! ## non-vacuity: concrete instances over ℚ -/
 section Examples
